@@ -37,6 +37,12 @@
 #define H_NL 2
 #endif
 #define H_RING CAT_UNSOLICITED_CMD_BUFFER_SIZE
+/* loop bound of predicates that scan either half */
+#if !H_SHARED && (H_UBUFSZ + 1 > H_BUFSZ)
+#define H_MAXBUF (H_UBUFSZ + 1)
+#else
+#define H_MAXBUF H_BUFSZ
+#endif
 #ifndef X_MAXTXT
 #define X_MAXTXT H_BUFSZ   /* expected texts longer than the buffer are refused anyway */
 #endif
